@@ -481,9 +481,10 @@ REAL_ENVS = [
 
 
 def real_runs(judge, seed, corp, n):
-    """Returns (validated, mismatches[list])"""
+    """Returns (validated, sim-vs-real mismatches, violations found by real runs when the seams are lost)"""
     validated = 0
     bad = []
+    real_viols = []
     procs = []
     tmp = tempfile.mkdtemp(prefix='c15-real-')
     try:
@@ -525,6 +526,29 @@ def real_runs(judge, seed, corp, n):
                     files = {nm: t.encode('utf-8') for nm, t in zip(scn2['names'], scn2['texts'])}
                     cscn = {'R': scn2['R'], 'files': [[nm, files[nm]] for nm in files], 'argv_files': scn2['names'],
                             'knobs': scn2['knobs'], 'fault': None, 'seed': scn2['seed']}
+                    if not judge.check_seam():
+                        # The tool does not go through the seams (it reads or writes some other way): no simulated run to
+                        # compare with. Fall back to judging the REAL run against the library reference, strictly.
+                        by_name = {}
+                        for nm, t in zip(scn2['names'], scn2['texts']):
+                            by_name[nm] = t
+                        refs = [judge.ref(scn2['R'], by_name[nm]) for nm in scn2['names']]
+                        validated += 1
+                        if all(r[0] == 'ok' for r in refs):
+                            expect = ''.join(r[1] for r in refs)
+                            good = so == expect.encode('utf-8')
+                            if not good:
+                                try:
+                                    good = so.decode(scn2['knobs']['stdout_encoding']) == expect
+                                except (UnicodeDecodeError, LookupError):
+                                    good = False
+                            if not good or p2.returncode != 0:
+                                real_viols.append({'property': PROP, 'failing': {'kind': 'CHANNEL', 'channel': 'cli_real', 'R': scn2['R'],
+                                                                                   'text_sha': _sha(scn2['texts'][0]), 'text': scn2['texts'][0]},
+                                                   'expected': ['bytes', expect.encode('utf-8').hex()], 'actual': ['bytes', so.hex()],
+                                                   'klass': 'cli_real', 'scenario': scn2, 'seed': seed, 'tier': None, 'batch': 'real', 'index': scn2['index'],
+                                                   'detail': {'returncode': p2.returncode, 'stderr': se.decode('utf-8', 'replace')[-300:]}})
+                        continue
                     sim = _fork(lambda: CW.cli_channel(cscn))
                     validated += 1
                     if not isinstance(sim, dict) or sim['sink'] != so or (sim['outcome'][0] == 'ok') != (p2.returncode == 0):
@@ -534,7 +558,33 @@ def real_runs(judge, seed, corp, n):
     finally:
         import shutil
         shutil.rmtree(tmp, ignore_errors=True)
-    return validated, bad
+    return validated, bad, real_viols
+
+
+def real_replay(judge, scn):
+    """Re-run one scenario through the real tool (default environment) and judge it against the library reference."""
+    tmp = tempfile.mkdtemp(prefix='c15-replay-')
+    try:
+        d = os.path.join(tmp, 'w')
+        os.makedirs(d)
+        by_name = {}
+        for nm, t in zip(scn['names'], scn['texts']):
+            by_name[nm] = t
+        for nm, t in by_name.items():
+            path = os.path.normpath(os.path.join(d, nm))
+            os.makedirs(os.path.dirname(path), exist_ok=True)
+            with open(path, 'wb') as f:
+                f.write(t.encode('utf-8'))
+        env = dict(os.environ, PYTHONPATH=core.REPO, PYTHONDONTWRITEBYTECODE='1')
+        knobs = dict(scn['knobs'], omit_r=False)
+        argv = [sys.executable, '-m', 'mistletoe'] + CW.build_argv(scn['R'], scn['names'], knobs)
+        p = subprocess.run(argv, cwd=d, env=env, stdin=subprocess.DEVNULL, stdout=subprocess.PIPE, stderr=subprocess.PIPE, timeout=300)
+        refs = [judge.ref(scn['R'], by_name[nm]) for nm in scn['names']]
+        expect = ''.join(r[1] for r in refs if r[0] == 'ok').encode('utf-8')
+        return p.stdout == expect and p.returncode == 0, p.stdout
+    finally:
+        import shutil
+        shutil.rmtree(tmp, ignore_errors=True)
 
 
 def selftests(seed, tier, full=False):
@@ -593,7 +643,8 @@ def run_check(tier, seed):
     core.run_pool(core.n_workers(), worker_main(tier, seed, pl, corp, corpus_scn), on_frame, 3 * 3600 if tier == 'thorough' else 900)
     t_run = time.time() - t0
     judge = Judge()
-    validated, bad = real_runs(judge, seed, corp, pl['n_real'])
+    validated, bad, real_viols = real_runs(judge, seed, corp, pl['n_real'])
+    viols.extend(real_viols)
     t_real = time.time() - t0 - t_run
     for b in bad:
         # the simulation and the real tool disagree: the stub misrepresents something -> harness error, never a verdict
@@ -608,7 +659,10 @@ def run_check(tier, seed):
     if len(ranked) > MAX_CLASSES:
         print('note: %d violation classes seen, reporting the %d most frequent' % (len(ranked), MAX_CLASSES))
     for klass, vs in ranked[:MAX_CLASSES]:
-        v, ok = minimise(judge, vs[0])
+        if klass == 'cli_real':
+            v, ok = vs[0], True          # found by a real subprocess; replayed by re-running the real tool, not shrunk
+        else:
+            v, ok = minimise(judge, vs[0])
         if not ok:
             raise core.HarnessError('C15 violation did not reproduce when re-executed: batch=%s index=%s' % (vs[0]['batch'], vs[0]['index']))
         f = findings_mod.match_open(v, known)
